@@ -299,7 +299,6 @@ def r5(ctx: Ctx, roles) -> None:
                 ctx.ob("C12.R5", dh, "disconnect: marker before the reply", "marked" in facts.get(n, frozenset()), "")
             if "closed" in e:
                 ctx.ob("C12.R5", dh, "disconnect: response first, then close", {"marked", "replied"} <= facts.get(n, frozenset()), "after the close nothing can be written: the device would never get its DisconnectResponse")
-        fe = facts.get(gh.exit, frozenset()) | frozenset(x for l, p in gh.exit.pred for x in ev(p))
         ctx.ob("C12.R5", dh, "disconnect: the connection is closed on every normal path", any("closed" in ev(n) for n in gh.reachable()) and gh.exit not in walk(gh, {}, lambda n: None, blocked={n for n in gh.reachable() if "closed" in ev(n)}), "")
     # registration precedes the hello
     dfc = ctx.repo.func("connection", "APIConnection._do_finish_connect")
